@@ -1,8 +1,972 @@
-//! C11 — placeholder, implemented by a dedicated module author.
-use vkit::{Args, Reporter};
-pub async fn run(_args: &Args, rep: &mut Reporter) {
-    rep.inconclusive("c11 not implemented yet");
+//! C11 — the server acts only for requests signed by a trusted device
+//! (real HTTP against an in-process `sos_server`), and the server part of
+//! C15 (`run_c15_http`): malformed request bodies get an error response
+//! while the server keeps serving.
+//!
+//! C11 is a product enumeration: route x method x credential form x access
+//! configuration. The route table is written down here from
+//! `crates/server/src/server.rs` AND discovered at run time (route literals
+//! parsed from that source file, the OpenAPI document the server publishes,
+//! and a dictionary of plausible paths): anything that answers other than
+//! 404/405 to an unauthenticated probe and is neither in the table nor on
+//! the short list of public routes is tested as an unlisted route.
+//!
+//! Oracle per request:
+//!  * valid credential of an account the configuration admits => the handler
+//!    is reached (status not 400/401/403);
+//!  * every invalid credential form => status 4xx AND the server fingerprint
+//!    (directory listing with sha256, per-account sync status and trusted
+//!    device keys held in memory, websocket connection count) is unchanged;
+//!  * an account on the deny list / absent from the allow list => refused
+//!    with any credential on every route, including creation of an account
+//!    that does not exist yet.
+use crate::http::{self, Access, HttpDevice, RawErr, RawReq, RawResp, TestServer};
+use serde_json::{json, Value};
+use sos_account::Account;
+use sos_client_storage::AccessOptions;
+use sos_core::device::TrustedDevice;
+use sos_core::events::{DeviceEvent, EventLog, EventLogType};
+use sos_core::{AccountId, ExternalFile, ExternalFileName, SecretId, SecretPath, VaultId};
+use sos_protocol::transfer::{FileSet, FileSyncClient};
+use sos_protocol::{DiffRequest, PatchRequest, ScanRequest, SyncClient, WireEncodeDecode};
+use sos_signer::ed25519::BoxedEd25519Signer;
+use sos_sync::{StorageEventLogs, SyncPacket, SyncStorage, UpdateSet};
+use sos_vault::secret::{FileContent, Secret, SecretMeta};
+use std::collections::{BTreeMap, BTreeSet};
+use std::path::Path;
+use std::time::Duration;
+use vkit::{Args, Fnv, Reporter, Rng};
+use vmodel::setup::{self, Backend};
+
+const V1: &str = "/api/v1";
+const WAIT: Duration = Duration::from_secs(30);
+const CONN: &str = "connection_id=verif";
+
+#[derive(Clone, Copy, PartialEq, Eq, Debug)]
+enum Subject {
+    Body,
+    Path,
 }
-pub async fn run_c15_http(_args: &Args, rep: &mut Reporter) {
-    rep.inconclusive("c15http not implemented yet");
+
+#[derive(Clone, Debug)]
+struct Route {
+    /// shape name, e.g. `PUT /api/v1/sync/file/{vault_id}/{secret_id}/{file_name}`
+    name: String,
+    method: &'static str,
+    path: String,
+    extra_query: String,
+    subject: Subject,
+    body: Option<Vec<u8>>,
+    ws: bool,
+    /// HEAD alias of a GET route / unlisted discovered route: invalid forms only
+    probe_only: bool,
+    /// position in the sequence of valid controls (destructive ones last)
+    order: u32,
+}
+
+impl Route {
+    fn target(&self) -> String {
+        if self.extra_query.is_empty() {
+            format!("{}?{}", self.path, CONN)
+        } else {
+            format!("{}?{}&{}", self.path, CONN, self.extra_query)
+        }
+    }
+    fn subject_bytes(&self) -> Vec<u8> {
+        match self.subject {
+            Subject::Body => self.body.clone().unwrap_or_default(),
+            Subject::Path => self.path.as_bytes().to_vec(),
+        }
+    }
+}
+
+struct Ident {
+    name: &'static str,
+    id: AccountId,
+    signer: BoxedEd25519Signer,
+}
+
+struct Material {
+    a: Ident,
+    b: Ident,
+    /// an account that exists only on its owner's disk
+    c: Ident,
+    c_create: Vec<u8>,
+    revoked: BoxedEd25519Signer,
+    routes: Vec<Route>,
+    f1: ExternalFile,
+    f2: ExternalFile,
+}
+
+const INVALID_FORMS: &[&str] = &[
+    "none",
+    "malformed_base58",
+    "short_signature",
+    "empty_bearer",
+    "basic_scheme",
+    "legacy_dotted_token",
+    "unknown_key",
+    "revoked_key",
+    "body_byte_appended",
+    "sig_over_other_path",
+    "sig_over_path_and_query",
+    "sig_over_wrong_subject",
+    "other_account_key",
+    "other_account_target",
+    "missing_account_header",
+    "garbage_account_header",
+    "unknown_account_header",
+];
+
+fn ws_headers(h: &mut Vec<(String, String)>) {
+    h.push(("connection".into(), "Upgrade".into()));
+    h.push(("upgrade".into(), "websocket".into()));
+    h.push(("sec-websocket-version".into(), "13".into()));
+    h.push(("sec-websocket-key".into(), "dGhlIHNhbXBsZSBub25jZQ==".into()));
+}
+
+/// Build the request for (route, form). `None` = the form does not apply.
+async fn build(m: &Material, r: &Route, form: &str, who: &Ident) -> Option<RawReq> {
+    let mut headers: Vec<(String, String)> = vec![];
+    let mut body = r.body.clone();
+    let mut account: Option<String> = Some(who.id.to_string());
+    let subject = r.subject_bytes();
+    let valid = http::bearer_for(&who.signer, &subject).await;
+    let mut auth: Option<String> = Some(format!("Bearer {valid}"));
+    match form {
+        "valid" => {}
+        "none" => auth = None,
+        "malformed_base58" => auth = Some("Bearer 0OIl+/not=base58".into()),
+        "short_signature" => {
+            let raw = bs58::decode(&valid).into_vec().ok()?;
+            auth = Some(format!("Bearer {}", bs58::encode(&raw[..40.min(raw.len())]).into_string()));
+        }
+        "empty_bearer" => auth = Some("Bearer ".into()),
+        "basic_scheme" => auth = Some(format!("Basic {valid}")),
+        "legacy_dotted_token" => auth = Some(format!("Bearer {valid}.{valid}")),
+        "unknown_key" => auth = Some(format!("Bearer {}", http::bearer_for(&http::fresh_signer(), &subject).await)),
+        "revoked_key" => auth = Some(format!("Bearer {}", http::bearer_for(&m.revoked, &subject).await)),
+        "body_byte_appended" => {
+            if r.subject != Subject::Body {
+                return None;
+            }
+            let mut b = body.clone().unwrap_or_default();
+            b.push(0);
+            body = Some(b);
+        }
+        "sig_over_other_path" => {
+            if r.subject != Subject::Path {
+                return None;
+            }
+            let other = if r.path.ends_with("/status") { format!("{V1}/sync/account") } else { format!("{V1}/sync/account/status") };
+            auth = Some(format!("Bearer {}", http::bearer_for(&who.signer, other.as_bytes()).await));
+        }
+        "sig_over_path_and_query" => {
+            if r.subject != Subject::Path {
+                return None;
+            }
+            auth = Some(format!("Bearer {}", http::bearer_for(&who.signer, r.target().as_bytes()).await));
+        }
+        "sig_over_wrong_subject" => {
+            let other: Vec<u8> = match (r.subject, &r.body) {
+                (Subject::Body, _) => r.path.as_bytes().to_vec(),
+                (Subject::Path, Some(b)) if !b.is_empty() => b.clone(),
+                _ => return None,
+            };
+            auth = Some(format!("Bearer {}", http::bearer_for(&who.signer, &other).await));
+        }
+        "other_account_key" => auth = Some(format!("Bearer {}", http::bearer_for(&m.b.signer, &subject).await)),
+        "other_account_target" => account = Some(m.b.id.to_string()),
+        "missing_account_header" => account = None,
+        "garbage_account_header" => account = Some("not-an-account-id".into()),
+        "unknown_account_header" => {
+            // creation of a NEW account is permissionless by design
+            if r.method == "PUT" && r.path == format!("{V1}/sync/account") {
+                return None;
+            }
+            account = Some(AccountId::random().to_string());
+        }
+        _ => return None,
+    }
+    if let Some(a) = account {
+        headers.push((http::ACCOUNT_HEADER.into(), a));
+    }
+    if let Some(a) = auth {
+        headers.push(("authorization".into(), a));
+    }
+    if body.is_some() {
+        headers.push(("content-type".into(), "application/x-protobuf".into()));
+    }
+    if r.ws {
+        ws_headers(&mut headers);
+    }
+    Some(RawReq { method: r.method.to_string(), target: r.target(), headers, body })
+}
+
+async fn connections(client: &reqwest::Client, server: &TestServer) -> String {
+    let req = RawReq { method: "GET".into(), target: format!("{V1}/sync/connections"), headers: vec![], body: None };
+    match http::raw(client, &server.url, &req, WAIT).await {
+        Ok(r) => String::from_utf8_lossy(&r.body).to_string(),
+        Err(e) => format!("{e:?}"),
+    }
+}
+
+async fn full_fingerprint(client: &reqwest::Client, server: &TestServer) -> BTreeMap<String, String> {
+    let mut fp = http::fingerprint(server).await;
+    fp.insert("net:websocket_connections".into(), connections(client, server).await);
+    fp
+}
+
+fn replay(args: &Args, server_db: bool, cfg: &str, r: &Route, form: &str, who: &str, req: &RawReq, resp: Option<&RawResp>) -> Value {
+    json!({
+        "check": "c11", "seed": args.seed, "shard": format!("{}/{}", args.shard, args.shards), "tier": args.tier,
+        "server_backend": if server_db { "db" } else { "fs" },
+        "config": cfg, "route": r.name, "method": req.method, "target": req.target, "form": form, "identity": who,
+        "headers": http::json_headers(&req.headers),
+        "body_len": req.body.as_ref().map(|b| b.len()),
+        "status": resp.map(|r| r.status),
+        "response_body": resp.map(|r| String::from_utf8_lossy(&r.body[..r.body.len().min(300)]).to_string()),
+    })
+}
+
+// ------------------------------------------------------------------ set-up
+
+async fn create_file_secret(dev: &HttpDevice, folder: &VaultId, dir: &Path, rng: &mut Rng, bytes: usize) -> anyhow::Result<(SecretId, ExternalFile, Vec<u8>)> {
+    std::fs::create_dir_all(dir)?;
+    let path = dir.join(format!("att-{}.bin", rng.token(8)));
+    let plain = rng.bytes(bytes);
+    std::fs::write(&path, &plain)?;
+    let secret: Secret = path.clone().try_into()?;
+    let meta = SecretMeta::new(format!("file {}", rng.token(6)), secret.kind());
+    let mut a = dev.account.lock().await;
+    let ch = a.create_secret(meta, secret, AccessOptions { folder: Some(*folder), ..Default::default() }).await?;
+    let (row, _) = a.read_secret(&ch.id, Some(folder)).await?;
+    let name: ExternalFileName = match row.secret() {
+        Secret::File { content: FileContent::External { checksum, .. }, .. } => (*checksum).into(),
+        _ => anyhow::bail!("file secret read back as something else"),
+    };
+    let _ = std::fs::remove_file(&path);
+    Ok((ch.id, ExternalFile::new(SecretPath(*folder, ch.id), name), plain))
+}
+
+struct Stage {
+    material: Material,
+    snapshot: std::path::PathBuf,
+    devices: Vec<HttpDevice>,
+}
+
+/// Build the staged server directory: accounts A and B exist on the
+/// server, A has one uploaded blob (f1) and one local-only blob (f2), a
+/// second device key of A was trusted, synced, then revoked and synced.
+async fn build_stage(args: &Args, rep: &mut Reporter, rng: &mut Rng, base: &Path, server_db: bool) -> anyhow::Result<Stage> {
+    let client_backend = Backend::Fs;
+    let pa = http::pristine(&base.join("pristine-a"), client_backend, rng).await?;
+    let pb = http::pristine(&base.join("pristine-b"), client_backend, rng).await?;
+    let pc = http::pristine(&base.join("pristine-c"), client_backend, rng).await?;
+    let snapshot = base.join("server-stage");
+    let server = TestServer::start(&snapshot, &Access::none(), server_db).await?;
+    let a = HttpDevice::from_pristine(&pa, &base.join("dev-a"), &server.origin, "dev-a").await?;
+    let b = HttpDevice::from_pristine(&pb, &base.join("dev-b"), &server.origin, "dev-b").await?;
+    let c = HttpDevice::from_pristine(&pc, &base.join("dev-c"), &server.origin, "dev-c").await?;
+    a.sync().await.map_err(|e| anyhow::anyhow!("initial sync of A: {e}"))?;
+    b.sync().await.map_err(|e| anyhow::anyhow!("initial sync of B: {e}"))?;
+
+    // file secrets
+    let folder = {
+        let acc = a.account.lock().await;
+        *acc.default_folder().await.ok_or_else(|| anyhow::anyhow!("no default folder"))?.id()
+    };
+    let files_dir = base.join("tmp-files");
+    let (_s1, f1, _) = create_file_secret(&a, &folder, &files_dir, rng, 3000).await?;
+    let (_s2, f2, _) = create_file_secret(&a, &folder, &files_dir, rng, 1800).await?;
+    a.sync().await.map_err(|e| anyhow::anyhow!("sync after file secrets: {e}"))?;
+    {
+        let paths = { a.account.lock().await.paths() };
+        let p1 = paths.into_file_path(&f1);
+        let (ptx, mut prx) = tokio::sync::mpsc::channel(64);
+        tokio::spawn(async move { while prx.recv().await.is_some() {} });
+        let (_ctx, crx) = tokio::sync::watch::channel(Default::default());
+        let st = a.client().upload_file(&f1, &p1, ptx, crx).await.map_err(|e| anyhow::anyhow!("upload f1: {e}"))?;
+        if !st.is_success() {
+            anyhow::bail!("upload of f1 answered {st}");
+        }
+    }
+
+    // second device: trust, sync, check it is served, revoke, sync
+    let revoked = http::fresh_signer();
+    let revoked_pk: sos_core::device::DevicePublicKey = revoked.verifying_key().as_bytes().into();
+    {
+        let mut acc = a.account.lock().await;
+        acc.patch_devices_unchecked(&[DeviceEvent::Trust(TrustedDevice::new(revoked_pk, None, None))]).await?;
+    }
+    a.sync().await.map_err(|e| anyhow::anyhow!("sync after trusting the second device: {e}"))?;
+    let raw = http::raw_client();
+    let status_path = format!("{V1}/sync/account/status");
+    let probe = |signer: BoxedEd25519Signer, id: AccountId| {
+        let status_path = status_path.clone();
+        async move {
+            let bearer = http::bearer_for(&signer, status_path.as_bytes()).await;
+            RawReq { method: "GET".into(), target: format!("{status_path}?{CONN}"), headers: vec![(http::ACCOUNT_HEADER.into(), id.to_string()), ("authorization".into(), format!("Bearer {bearer}"))], body: None }
+        }
+    };
+    let pre = http::raw(&raw, &server.url, &probe(revoked.clone(), pa.account_id).await, WAIT).await;
+    match pre {
+        Ok(r) if r.status == 200 => rep.count("second_device_served_before_revoke", 1),
+        Ok(r) => anyhow::bail!("the freshly trusted second device was answered {} before revocation", r.status),
+        Err(e) => anyhow::bail!("no answer for the second device before revocation: {e:?}"),
+    }
+    {
+        let mut acc = a.account.lock().await;
+        acc.revoke_device(&revoked_pk).await?;
+    }
+    a.sync().await.map_err(|e| anyhow::anyhow!("sync after revoking the second device: {e}"))?;
+    let trusted = server.trusted_keys(&pa.account_id).await.unwrap_or_default();
+    if trusted.contains(&hex::encode(revoked_pk.as_ref())) {
+        rep.violation(
+            "C11:revocation_synced:server_still_trusts_device",
+            "after the owner revoked a device and synced without error, the running server still lists the device key as trusted",
+            json!({"check": "c11", "seed": args.seed, "shard": args.shard, "server_backend": if server_db {"db"} else {"fs"}}),
+        );
+    }
+    rep.count("revocations_synced", 1);
+
+    // ---- request bodies
+    // A's local, unsynced changes make the sync / patch / update bodies
+    // "hot": if the server accepted them its state would change (an
+    // attacker-chosen device key would become trusted).
+    let server_status = a.client().sync_status().await.map_err(|e| anyhow::anyhow!("sync_status: {e}"))?;
+    let attacker = http::fresh_signer();
+    let attacker_pk: sos_core::device::DevicePublicKey = attacker.verifying_key().as_bytes().into();
+    let (create_a, packet, patch_req, update_set, file_set) = {
+        let mut acc = a.account.lock().await;
+        acc.patch_devices_unchecked(&[DeviceEvent::Trust(TrustedDevice::new(attacker_pk, None, None))]).await?;
+        let meta = SecretMeta::new("unsynced note".into(), sos_vault::secret::SecretType::Note);
+        acc.create_secret(meta, Secret::Note { text: "unsynced".to_string().into(), user_data: Default::default() }, AccessOptions { folder: Some(folder), ..Default::default() }).await?;
+        let create_a = acc.create_set().await?.encode().await?;
+        let (_needs, local_status, diff) = sos_protocol::diff::<_, sos_net::Error>(&*acc, server_status.clone()).await?;
+        let packet = SyncPacket { status: local_status, diff, compare: None }.encode().await?;
+        let device_log = acc.device_log().await?;
+        let device_log = device_log.read().await;
+        let records = device_log.diff_records(Some(&server_status.device.0)).await?;
+        let patch_req = PatchRequest { log_type: EventLogType::Device, commit: None, proof: server_status.device.1.clone(), patch: records }.encode().await?;
+        let update_set = UpdateSet { device: Some(device_log.diff_unchecked().await?), ..Default::default() }.encode().await?;
+        let files = acc.canonical_files().await?;
+        let file_set = FileSet(files).encode().await?;
+        (create_a, packet, patch_req, update_set, file_set)
+    };
+    let scan = ScanRequest { log_type: EventLogType::Identity, limit: 16, offset: 0 }.encode().await?;
+    let diff = DiffRequest { log_type: EventLogType::Identity, from_hash: None }.encode().await?;
+    let f2_bytes = {
+        let paths = { a.account.lock().await.paths() };
+        std::fs::read(paths.into_file_path(&f2))?
+    };
+    let c_create = {
+        let acc = c.account.lock().await;
+        acc.create_set().await?.encode().await?
+    };
+
+    let acct = format!("{V1}/sync/account");
+    let events = format!("{V1}/sync/account/events");
+    let file_tpl = format!("{V1}/sync/file/{{vault_id}}/{{secret_id}}/{{file_name}}");
+    let f1_path = format!("{V1}/sync/file/{f1}");
+    let f2_path = format!("{V1}/sync/file/{f2}");
+    let move_query = format!("vault_id={}&secret_id={}&name={}", f1.vault_id(), SecretId::new_v4(), f1.file_name());
+    let mk = |method: &'static str, tpl: &str, path: &str, subject: Subject, body: Option<Vec<u8>>, order: u32| Route {
+        name: format!("{method} {tpl}"),
+        method,
+        path: path.to_string(),
+        extra_query: String::new(),
+        subject,
+        body,
+        ws: false,
+        probe_only: false,
+        order,
+    };
+    let mut routes = vec![
+        mk("HEAD", &acct, &acct, Subject::Path, None, 1),
+        mk("GET", &acct, &acct, Subject::Path, None, 2),
+        mk("GET", &format!("{acct}/status"), &format!("{acct}/status"), Subject::Path, None, 3),
+        mk("GET", &events, &events, Subject::Body, Some(scan), 4),
+        mk("POST", &events, &events, Subject::Body, Some(diff), 5),
+        mk("POST", &format!("{V1}/sync/files"), &format!("{V1}/sync/files"), Subject::Path, Some(file_set), 6),
+        mk("GET", &file_tpl, &f1_path, Subject::Path, None, 7),
+        Route { ws: true, ..mk("GET", &format!("{V1}/sync/changes"), &format!("{V1}/sync/changes"), Subject::Path, None, 8) },
+        mk("PUT", &file_tpl, &f2_path, Subject::Path, Some(f2_bytes), 9),
+        Route { extra_query: move_query, ..mk("POST", &file_tpl, &f1_path, Subject::Path, None, 10) },
+        mk("DELETE", &file_tpl, &f2_path, Subject::Path, None, 11),
+        mk("PATCH", &events, &events, Subject::Body, Some(patch_req), 12),
+        mk("PATCH", &acct, &acct, Subject::Body, Some(packet), 13),
+        mk("POST", &acct, &acct, Subject::Body, Some(update_set), 14),
+        mk("PUT", &acct, &acct, Subject::Body, Some(create_a), 15),
+        mk("DELETE", &acct, &acct, Subject::Path, None, 99),
+    ];
+    // HEAD is answered by every GET route: same protection expected
+    let aliases: Vec<Route> = routes.iter().filter(|r| r.method == "GET").map(|r| Route { name: r.name.replacen("GET", "HEAD", 1), method: "HEAD", body: None, subject: Subject::Path, probe_only: true, ..r.clone() }).collect();
+    routes.extend(aliases);
+    // for the invalid forms DELETE of the uploaded file is the sensitive one
+    let del_f1 = Route { name: format!("DELETE {file_tpl}"), path: f1_path.clone(), probe_only: true, ..mk("DELETE", &file_tpl, &f1_path, Subject::Path, None, 0) };
+    routes.push(del_f1);
+
+    let material = Material {
+        a: Ident { name: "me", id: pa.account_id, signer: a.signer.clone() },
+        b: Ident { name: "other", id: pb.account_id, signer: b.signer.clone() },
+        c: Ident { name: "new", id: pc.account_id, signer: c.signer.clone() },
+        c_create,
+        revoked,
+        routes,
+        f1,
+        f2,
+    };
+    server.shutdown().await;
+    Ok(Stage { material, snapshot, devices: vec![a, b, c] })
+}
+
+// --------------------------------------------------------------- discovery
+
+/// Route literals of `Server::router` parsed from the source text.
+fn parse_router_source() -> Vec<(String, Vec<&'static str>)> {
+    let Ok(text) = std::fs::read_to_string("/repo/crates/server/src/server.rs") else { return vec![] };
+    let mut out = vec![];
+    let mut rest = text.as_str();
+    while let Some(i) = rest.find(".route(") {
+        rest = &rest[i + 7..];
+        let t = rest.trim_start();
+        if !t.starts_with('"') {
+            continue;
+        }
+        let t = &t[1..];
+        let Some(end) = t.find('"') else { break };
+        let path = t[..end].to_string();
+        let seg_end = t.find(".route(").unwrap_or(t.len()).min(t.find(';').unwrap_or(t.len()));
+        let seg = &t[end..seg_end];
+        let mut methods = vec![];
+        for m in ["get", "post", "put", "patch", "delete", "head"] {
+            let pat = format!("{m}(");
+            let mut s = seg;
+            let mut found = false;
+            while let Some(j) = s.find(&pat) {
+                let before = s[..j].chars().last();
+                if !before.map(|c| c.is_alphanumeric() || c == '_').unwrap_or(false) {
+                    found = true;
+                    break;
+                }
+                s = &s[j + pat.len()..];
+            }
+            if found {
+                methods.push(match m {
+                    "get" => "GET",
+                    "post" => "POST",
+                    "put" => "PUT",
+                    "patch" => "PATCH",
+                    "delete" => "DELETE",
+                    _ => "HEAD",
+                });
+            }
+        }
+        out.push((path, methods));
+    }
+    out
+}
+
+const PUBLIC: &[&str] = &["/", "/api/v1", "/api/v1/", "/api/v1/docs", "/api/v1/docs/", "/api/v1/docs/openapi.json", "/api/v1/sync/connections", "/api/v1/relay"];
+
+const DICTIONARY: &[&str] = &[
+    "/api", "/api/", "/api/v2", "/api/v2/sync/account", "/api/v1/sync", "/api/v1/sync/", "/api/v1/sync/account/", "/api/v1/sync/account/status/", "/api/v1/sync/account/devices",
+    "/api/v1/sync/account/device", "/api/v1/sync/account/identity", "/api/v1/sync/account/recover", "/api/v1/sync/account/folders", "/api/v1/sync/account/files", "/api/v1/sync/accounts",
+    "/api/v1/accounts", "/api/v1/account", "/api/v1/sync/file", "/api/v1/sync/files/", "/api/v1/sync/folders", "/api/v1/sync/device", "/api/v1/sync/devices", "/api/v1/sync/events",
+    "/api/v1/sync/status", "/api/v1/admin", "/api/v1/debug", "/api/v1/health", "/api/v1/metrics", "/metrics", "/health", "/status", "/api/v1//sync/account", "/api/v1/sync//account",
+    "/API/V1/sync/account", "/api/v1/sync/account%2Fstatus", "/api/v1/sync/account/../account", "/api/v1/sync/account;x=1", "/sync/account", "/sync/account/status", "/sync/files", "/relay",
+];
+
+/// Returns (live (method, template, concrete path)) for everything that is
+/// neither 404 nor 405 without credentials.
+async fn discover(client: &reqwest::Client, server: &TestServer, m: &Material, rep: &mut Reporter) -> Vec<(String, String, String, u16)> {
+    let mut candidates: BTreeSet<String> = BTreeSet::new();
+    for (p, _) in parse_router_source() {
+        candidates.insert(p.clone());
+        candidates.insert(format!("{V1}{}", if p == "/" { "" } else { &p }));
+    }
+    rep.count("router_source_route_literals", parse_router_source().len() as u64);
+    for d in DICTIONARY.iter().chain(PUBLIC.iter()) {
+        candidates.insert(d.to_string());
+    }
+    for r in &m.routes {
+        candidates.insert(r.name.split(' ').nth(1).unwrap_or("").to_string());
+    }
+    // paths of the OpenAPI document the server publishes
+    let req = RawReq { method: "GET".into(), target: format!("{V1}/docs/openapi.json"), headers: vec![], body: None };
+    if let Ok(r) = http::raw(client, &server.url, &req, WAIT).await {
+        if let Ok(v) = serde_json::from_slice::<Value>(&r.body) {
+            if let Some(paths) = v.get("paths").and_then(|p| p.as_object()) {
+                rep.count("openapi_paths", paths.len() as u64);
+                for p in paths.keys() {
+                    candidates.insert(p.clone());
+                    candidates.insert(format!("{V1}{p}"));
+                }
+            }
+        }
+    }
+    let mut live = vec![];
+    for tpl in candidates {
+        if tpl.is_empty() {
+            continue;
+        }
+        let concrete = tpl.replace("{vault_id}", &m.f1.vault_id().to_string()).replace("{secret_id}", &m.f1.secret_id().to_string()).replace("{file_name}", &m.f1.file_name().to_string());
+        for method in ["GET", "HEAD", "POST", "PUT", "PATCH", "DELETE"] {
+            let req = RawReq { method: method.into(), target: concrete.clone(), headers: vec![], body: None };
+            rep.count("discovery_probes", 1);
+            match http::raw(client, &server.url, &req, WAIT).await {
+                Ok(r) if r.status == 404 || r.status == 405 => {}
+                Ok(r) => live.push((method.to_string(), tpl.clone(), concrete.clone(), r.status)),
+                Err(_) => {}
+            }
+        }
+    }
+    live
+}
+
+// ------------------------------------------------------------------- check
+
+struct Ctx<'a> {
+    args: &'a Args,
+    server_db: bool,
+    cfg: &'a Access,
+    client: reqwest::Client,
+}
+
+/// Send one request of an invalid / must-be-refused form and judge it.
+/// Returns the new baseline fingerprint.
+#[allow(clippy::too_many_arguments)]
+async fn expect_refused(ctx: &Ctx<'_>, rep: &mut Reporter, server: &TestServer, m: &Material, r: &Route, form: &str, who: &Ident, why: &str, baseline: BTreeMap<String, String>, denied_routes: &mut BTreeMap<String, Vec<String>>) -> BTreeMap<String, String> {
+    let Some(req) = build(m, r, form, who).await else { return baseline };
+    let mut h = Fnv::new();
+    h.str(&r.name).str(form).str(ctx.cfg.name).str(who.name).u64(ctx.server_db as u64);
+    rep.case(h.finish(), true);
+    rep.count("requests", 1);
+    rep.count(&format!("form:{form}"), 1);
+    rep.count(&format!("config:{}", ctx.cfg.name), 1);
+    let resp = http::raw(&ctx.client, &server.url, &req, WAIT).await;
+    let resp = match resp {
+        Ok(r) => r,
+        Err(RawErr::Timeout) => {
+            rep.inconclusive(&format!("no answer within the bounded wait: {} {form} under config {}", r.name, ctx.cfg.name));
+            return baseline;
+        }
+        Err(RawErr::NoResponse(e)) => {
+            // the connection was closed without a response: refused, but the
+            // state check below still applies
+            rep.count("closed_without_response", 1);
+            let _ = e;
+            RawResp { status: 0, headers: vec![], body: vec![] }
+        }
+    };
+    rep.count(&format!("status:{}", resp.status), 1);
+    if std::env::var("C11_DEBUG").is_ok() {
+        eprintln!("DBG {} | {} | {} | {} -> {}", ctx.cfg.name, r.name, form, who.name, resp.status);
+    }
+    let after = full_fingerprint(&ctx.client, server).await;
+    let changed = http::fp_diff(&baseline, &after);
+    let rp = replay(ctx.args, ctx.server_db, ctx.cfg.name, r, form, who.name, &req, Some(&resp));
+    let by_config = why != "credential";
+    if (200..400).contains(&resp.status) {
+        if by_config {
+            denied_routes.entry(format!("{}:{}", who.name, form)).or_default().push(format!("{} -> {}", r.name, resp.status));
+            rep.count(&format!("accepted_though_config_refuses:{}", ctx.cfg.name), 1);
+        } else {
+            rep.violation(&format!("C11:{}:{form}:accepted", r.name), &format!("the server answered {} to a request with credential form '{form}' ({})", resp.status, r.name), rp.clone());
+        }
+    } else if resp.status >= 500 {
+        rep.violation(&format!("C11:{}:{form}:refused_with_{}", r.name, resp.status), &format!("credential form '{form}' was answered {} instead of a 4xx refusal: {}", resp.status, String::from_utf8_lossy(&resp.body[..resp.body.len().min(200)])), rp.clone());
+    } else {
+        rep.count("refused", 1);
+    }
+    if !changed.is_empty() {
+        let clause = if by_config { format!("config_{}:state_changed", ctx.cfg.name) } else { "state_changed".to_string() };
+        rep.violation(&format!("C11:{}:{form}:{clause}", r.name), &format!("server state changed after a request that had to be refused (status {}): {:?}", resp.status, &changed[..changed.len().min(8)]), rp);
+    }
+    after
+}
+
+async fn run_config(ctx: &Ctx<'_>, rep: &mut Reporter, stage: &Stage, dir: &Path) -> anyhow::Result<()> {
+    let m = &stage.material;
+    let _ = std::fs::remove_dir_all(dir);
+    setup::copy_dir(&stage.snapshot, dir)?;
+    let server = TestServer::start(dir, ctx.cfg, ctx.server_db).await?;
+    let mut denied: BTreeMap<String, Vec<String>> = BTreeMap::new();
+
+    // the staged accounts must have been reloaded from disk, the revoked key not trusted
+    let ids = server.account_ids().await;
+    if !ids.contains(&m.a.id) || !ids.contains(&m.b.id) {
+        anyhow::bail!("restarted server did not load the staged accounts: {ids:?}");
+    }
+
+    // discovery (once per config; cheap)
+    let live = discover(&ctx.client, &server, m, rep).await;
+    let mut routes: Vec<Route> = m.routes.clone();
+    let known: BTreeSet<(String, String)> = routes.iter().map(|r| (r.method.to_string(), r.name.split(' ').nth(1).unwrap_or("").to_string())).collect();
+    let mut live_known = BTreeSet::new();
+    for (method, tpl, concrete, status) in &live {
+        if known.contains(&(method.clone(), tpl.clone())) {
+            live_known.insert((method.clone(), tpl.clone()));
+            continue;
+        }
+        if PUBLIC.contains(&tpl.as_str()) && (method == "GET" || method == "HEAD") {
+            rep.count("public_routes_seen", 1);
+            continue;
+        }
+        // answered, but neither in the table nor public: an unlisted route
+        rep.count("routes_discovered_unlisted", 1);
+        rep.sample(json!({"unlisted_route": format!("{method} {tpl}"), "status_without_credentials": status}));
+        let method_s: &'static str = match method.as_str() {
+            "GET" => "GET",
+            "HEAD" => "HEAD",
+            "POST" => "POST",
+            "PUT" => "PUT",
+            "PATCH" => "PATCH",
+            _ => "DELETE",
+        };
+        routes.push(Route { name: format!("{method} {tpl} (unlisted)"), method: method_s, path: concrete.clone(), extra_query: String::new(), subject: Subject::Path, body: None, ws: false, probe_only: true, order: 0 });
+        if (200..300).contains(status) {
+            rep.violation(&format!("C11:{method} {tpl}:unlisted_route:answers_without_credentials"), &format!("{method} {tpl} is not in the route table of the check, is not a documented public route, and answered {status} without any credential"), json!({"check": "c11", "method": method, "path": concrete, "status": status}));
+        }
+    }
+    for k in &known {
+        if !live_known.contains(k) {
+            rep.inconclusive(&format!("route table entry {} {} did not answer the unauthenticated probe (table out of date?)", k.0, k.1));
+        }
+    }
+    let distinct: BTreeSet<String> = routes.iter().map(|r| r.name.clone()).collect();
+    rep.max("routes", distinct.len() as u64);
+
+    let mut fp = full_fingerprint(&ctx.client, &server).await;
+    // 1. invalid credential forms on every route, whatever the config
+    for r in &routes {
+        for form in INVALID_FORMS {
+            fp = expect_refused(ctx, rep, &server, m, r, form, &m.a, "credential", fp, &mut denied).await;
+        }
+        if server.died() {
+            rep.violation("C11:server_task_ended", &format!("the server task ended while probing {}", r.name), json!({"check": "c11", "seed": ctx.args.seed, "config": ctx.cfg.name}));
+            return Ok(());
+        }
+    }
+    // 2. the body of a path-signed request is not covered by the signature
+    for r in routes.iter().filter(|r| r.subject == Subject::Path && r.body.is_some() && r.method == "POST" && !r.probe_only) {
+        if !ctx.cfg.documented_allows(&m.a.id) {
+            continue;
+        }
+        let mut req = build(m, r, "valid", &m.a).await.unwrap();
+        // another, well-formed body than the one the client built
+        req.body = Some(FileSet(Default::default()).encode().await.unwrap_or_default());
+        let mut h = Fnv::new();
+        h.str(&r.name).str("body_replaced_after_signing").str(ctx.cfg.name).u64(ctx.server_db as u64);
+        rep.case(h.finish(), true);
+        rep.count("requests", 1);
+        rep.count("form:body_replaced_after_signing", 1);
+        if let Ok(resp) = http::raw(&ctx.client, &server.url, &req, WAIT).await {
+            rep.count(&format!("status:{}", resp.status), 1);
+            if (200..300).contains(&resp.status) {
+                rep.violation(
+                    &format!("C11:{}:body_replaced_after_signing:accepted", r.name),
+                    &format!("{} carries a body but the bearer signature covers only the path: a request whose body was replaced after signing is answered {}", r.name, resp.status),
+                    replay(ctx.args, ctx.server_db, ctx.cfg.name, r, "body_replaced_after_signing", "me", &req, Some(&resp)),
+                );
+            } else {
+                rep.count("refused", 1);
+            }
+        }
+    }
+
+    // 3. identities the configuration refuses: every route, valid credential
+    for who in [&m.a, &m.b, &m.c] {
+        if ctx.cfg.documented_allows(&who.id) {
+            continue;
+        }
+        let mut rs: Vec<&Route> = routes.iter().filter(|r| !r.probe_only).collect();
+        rs.sort_by_key(|r| r.order);
+        for r in rs {
+            let mut r2 = r.clone();
+            if who.name == "new" && r.method == "PUT" && r.path.ends_with("/sync/account") {
+                r2.body = Some(m.c_create.clone());
+            }
+            fp = expect_refused(ctx, rep, &server, m, &r2, "valid", who, "config", fp, &mut denied).await;
+        }
+    }
+    for (k, list) in &denied {
+        rep.violation(
+            &format!("C11:config_{}:{}:accepted", ctx.cfg.name, k.replace(':', "_credential_")),
+            &format!("access config '{}' (allow={:?} deny={:?}) must refuse this account on every endpoint, but {} route(s) were served: {:?}", ctx.cfg.name, ctx.cfg.allow.as_ref().map(|v| v.len()), ctx.cfg.deny.as_ref().map(|v| v.len()), list.len(), list),
+            json!({"check": "c11", "seed": ctx.args.seed, "shard": ctx.args.shard, "config": ctx.cfg.name, "identity_and_form": k, "server_backend": if ctx.server_db {"db"} else {"fs"}, "routes": list}),
+        );
+    }
+
+    // 4. valid controls for admitted identities: the handler must be reached
+    if ctx.cfg.documented_allows(&m.a.id) {
+        let mut rs: Vec<&Route> = routes.iter().filter(|r| !r.probe_only).collect();
+        rs.sort_by_key(|r| r.order);
+        for r in rs {
+            // creation of the new account just before the account is deleted
+            if r.order == 99 && ctx.cfg.documented_allows(&m.c.id) {
+                let put = routes.iter().find(|x| x.method == "PUT" && x.path.ends_with("/sync/account")).unwrap();
+                let r2 = Route { body: Some(m.c_create.clone()), ..put.clone() };
+                valid_control(ctx, rep, &server, m, &r2, &m.c).await;
+            }
+            valid_control(ctx, rep, &server, m, r, &m.a).await;
+        }
+    }
+    if server.died() {
+        rep.violation("C11:server_task_ended", "the server task ended during the run", json!({"check": "c11", "seed": ctx.args.seed, "config": ctx.cfg.name}));
+    }
+    server.shutdown().await;
+    let _ = std::fs::remove_dir_all(dir);
+    Ok(())
+}
+
+async fn valid_control(ctx: &Ctx<'_>, rep: &mut Reporter, server: &TestServer, m: &Material, r: &Route, who: &Ident) {
+    let Some(req) = build(m, r, "valid", who).await else { return };
+    let mut h = Fnv::new();
+    h.str(&r.name).str("valid").str(ctx.cfg.name).str(who.name).u64(ctx.server_db as u64);
+    rep.case(h.finish(), true);
+    rep.count("requests", 1);
+    rep.count("form:valid", 1);
+    rep.count(&format!("config:{}", ctx.cfg.name), 1);
+    match http::raw(&ctx.client, &server.url, &req, WAIT).await {
+        Ok(resp) => {
+            rep.count(&format!("status:{}", resp.status), 1);
+            if [400u16, 401, 403].contains(&resp.status) {
+                rep.violation(
+                    &format!("C11:{}:valid_credential:refused", r.name),
+                    &format!("a request correctly signed by a trusted device of an admitted account was refused with {} under config '{}': {}", resp.status, ctx.cfg.name, String::from_utf8_lossy(&resp.body[..resp.body.len().min(200)])),
+                    replay(ctx.args, ctx.server_db, ctx.cfg.name, r, "valid", who.name, &req, Some(&resp)),
+                );
+            } else {
+                rep.count("accepted_valid", 1);
+                if (200..300).contains(&resp.status) || resp.status == 101 {
+                    rep.count("accepted_valid_2xx", 1);
+                } else {
+                    rep.count(&format!("valid_reached_with:{}:{}", r.name, resp.status), 1);
+                }
+            }
+        }
+        Err(RawErr::Timeout) => rep.inconclusive(&format!("no answer within the bounded wait for the valid control of {}", r.name)),
+        Err(RawErr::NoResponse(e)) => rep.violation(&format!("C11:{}:valid_credential:no_response", r.name), &format!("connection closed without a response: {e}"), replay(ctx.args, ctx.server_db, ctx.cfg.name, r, "valid", who.name, &req, None)),
+    }
+}
+
+fn configs(m: &Material) -> Vec<Access> {
+    let me = m.a.id;
+    let other = m.b.id;
+    vec![
+        Access::none(),
+        Access { name: "allow_me", allow: Some(vec![me, m.c.id]), deny: None },
+        Access { name: "allow_other_only", allow: Some(vec![other]), deny: None },
+        Access { name: "deny_me", allow: None, deny: Some(vec![me, m.c.id]) },
+        Access { name: "deny_other", allow: None, deny: Some(vec![other]) },
+        Access { name: "allow_and_deny_me", allow: Some(vec![me, other, m.c.id]), deny: Some(vec![me, m.c.id]) },
+    ]
+}
+
+pub async fn run(args: &Args, rep: &mut Reporter) {
+    http::install_panic_watch();
+    let mut rng = Rng::new(args.shard_seed() ^ 0xC11);
+    let base = args.dir.join(format!("c11-s{}-{}of{}", args.seed, args.shard, args.shards));
+    let _ = std::fs::remove_dir_all(&base);
+    if let Err(e) = std::fs::create_dir_all(&base) {
+        rep.inconclusive(&format!("cannot create scratch dir: {e}"));
+        return;
+    }
+    let backends: Vec<bool> = if args.thorough() { vec![false, true] } else { vec![false] };
+    let panics0 = http::panics_seen();
+    for server_db in backends {
+        let sub = base.join(if server_db { "db" } else { "fs" });
+        let stage = match build_stage(args, rep, &mut rng, &sub, server_db).await {
+            Ok(s) => s,
+            Err(e) => {
+                rep.inconclusive(&format!("staging the server failed ({}): {e}", if server_db { "db" } else { "fs" }));
+                continue;
+            }
+        };
+        let cfgs = configs(&stage.material);
+        for (i, cfg) in cfgs.iter().enumerate() {
+            if i % args.shards.max(1) != args.shard % args.shards.max(1) {
+                continue;
+            }
+            if args.budget_s > 0 && rep.elapsed_s() > args.budget_s as f64 {
+                rep.inconclusive("time budget reached before every configuration of this shard was run");
+                break;
+            }
+            let ctx = Ctx { args, server_db, cfg, client: http::raw_client() };
+            if let Err(e) = run_config(&ctx, rep, &stage, &sub.join(format!("server-{}", cfg.name))).await {
+                rep.inconclusive(&format!("config {} could not be run: {e}", cfg.name));
+            }
+        }
+        for d in stage.devices {
+            d.close().await;
+        }
+    }
+    for p in http::panics_since(panics0) {
+        rep.violation("C11:panic_in_process", &format!("a panic was recorded while the server handled the probes: {p}"), json!({"check": "c11", "seed": args.seed, "shard": args.shard}));
+    }
+    let _ = std::fs::remove_dir_all(&base);
+}
+
+// =====================================================================
+// C15 (server part): malformed request bodies
+
+fn mutate(rng: &mut Rng, valid: &[u8], k: usize) -> (String, Vec<u8>) {
+    let n = valid.len();
+    match k % 8 {
+        0 => ("empty".into(), vec![]),
+        1 if n > 0 => {
+            let mut b = valid.to_vec();
+            let i = rng.usize(n);
+            b[i] ^= 1 << rng.below(8);
+            ("bit_flip".into(), b)
+        }
+        2 if n > 1 => {
+            let cut = rng.usize(n - 1) + 1;
+            ("truncated".into(), valid[..cut].to_vec())
+        }
+        3 if n > 4 => {
+            // fixed 32-bit length field style edit
+            let mut b = valid.to_vec();
+            let i = rng.usize(n - 4);
+            b[i..i + 4].copy_from_slice(&[0xff, 0xff, 0xff, 0xff]);
+            ("length_ffffffff".into(), b)
+        }
+        4 if n > 0 => {
+            // protobuf varint length blown up: insert a 5-byte varint (~4 GiB)
+            let mut b = valid.to_vec();
+            let i = rng.usize(n);
+            b.splice(i..i + 1, [0xff, 0xff, 0xff, 0xff, 0x0f]);
+            ("varint_huge".into(), b)
+        }
+        5 => {
+            let len = [1usize, 7, 64, 1000][rng.usize(4)];
+            ("random_bytes".into(), rng.bytes(len))
+        }
+        6 if n > 8 => {
+            // splice a piece of the message over another place
+            let mut b = valid.to_vec();
+            let a = rng.usize(n - 4);
+            let c = rng.usize(n - 4);
+            let piece: Vec<u8> = b[a..a + 4].to_vec();
+            b[c..c + 4].copy_from_slice(&piece);
+            ("splice".into(), b)
+        }
+        7 if n > 0 => {
+            let mut b = valid.to_vec();
+            let extra = 1 + rng.usize(16);
+            b.extend(rng.bytes(extra));
+            ("trailing_garbage".into(), b)
+        }
+        _ => {
+            let len = 1 + rng.usize(40);
+            ("random_bytes".into(), rng.bytes(len))
+        }
+    }
+}
+
+pub async fn run_c15_http(args: &Args, rep: &mut Reporter) {
+    http::install_panic_watch();
+    let mut rng = Rng::new(args.shard_seed() ^ 0xC15);
+    let base = args.dir.join(format!("c15http-s{}-{}of{}", args.seed, args.shard, args.shards));
+    let _ = std::fs::remove_dir_all(&base);
+    let _ = std::fs::create_dir_all(&base);
+    let server_db = args.thorough() && args.shard % 2 == 1;
+    let stage = match build_stage(args, rep, &mut rng, &base, server_db).await {
+        Ok(s) => s,
+        Err(e) => {
+            rep.inconclusive(&format!("staging the server failed: {e}"));
+            return;
+        }
+    };
+    let m = &stage.material;
+    let dir = base.join("server-run");
+    let _ = std::fs::remove_dir_all(&dir);
+    if let Err(e) = setup::copy_dir(&stage.snapshot, &dir) {
+        rep.inconclusive(&format!("copy of the staged server failed: {e}"));
+        return;
+    }
+    let server = match TestServer::start(&dir, &Access::none(), server_db).await {
+        Ok(s) => s,
+        Err(e) => {
+            rep.inconclusive(&format!("server start failed: {e}"));
+            return;
+        }
+    };
+    let client = http::raw_client();
+    let per_route = args.by_tier(40usize, 600usize);
+    let status_route = m.routes.iter().find(|r| r.method == "GET" && r.path.ends_with("/status")).unwrap().clone();
+    let body_routes: Vec<Route> = m.routes.iter().filter(|r| r.body.is_some() && !r.probe_only).cloned().collect();
+    let panics0 = http::panics_seen();
+    let mut dead = false;
+    'outer: for (ri, r) in body_routes.iter().enumerate() {
+        if ri % args.shards.max(1) != args.shard % args.shards.max(1) && args.shards > 1 && !args.thorough() {
+            // quick: routes are spread over the shards; thorough: every shard runs all routes with its own seed
+            continue;
+        }
+        let valid = r.body.clone().unwrap_or_default();
+        for k in 0..per_route {
+            let (kind, body) = mutate(&mut rng, &valid, k);
+            // creation is decoded only for an account that does not exist yet
+            let create = r.method == "PUT" && r.path.ends_with("/sync/account");
+            let who = Ident { name: "me", id: if create { AccountId::random() } else { m.a.id }, signer: m.a.signer.clone() };
+            let r2 = Route { body: Some(body.clone()), ..r.clone() };
+            let Some(req) = build(m, &r2, "valid", &who).await else { continue };
+            let mut h = Fnv::new();
+            h.str(&r.name).str(&kind).bytes(&body);
+            rep.case(h.finish(), true);
+            rep.count("http_malformed_requests", 1);
+            rep.count(&format!("mutation:{kind}"), 1);
+            let p0 = http::panics_seen();
+            let rp = json!({"check": "c15http", "seed": args.seed, "shard": format!("{}/{}", args.shard, args.shards), "route": r.name, "mutation": kind, "body_hex": hex::encode(&body[..body.len().min(4096)]), "body_len": body.len(), "server_backend": if server_db {"db"} else {"fs"}});
+            match http::raw(&client, &server.url, &req, WAIT).await {
+                Ok(resp) => {
+                    rep.count(&format!("status:{}", resp.status), 1);
+                    if resp.status >= 400 {
+                        rep.count("error_responses", 1);
+                    }
+                }
+                Err(RawErr::Timeout) => rep.inconclusive(&format!("no answer within the bounded wait: {} with a {kind} body", r.name)),
+                Err(RawErr::NoResponse(e)) => {
+                    let panics = http::panics_since(p0);
+                    rep.violation(&format!("C15:http:{}:no_response", r.name), &format!("a {kind} body made the server close the connection without a response ({e}); panics recorded: {panics:?}"), rp.clone());
+                }
+            }
+            let panics = http::panics_since(p0);
+            if !panics.is_empty() {
+                let loc = panics[0].split(": ").next().unwrap_or("?").to_string();
+                rep.violation(&format!("C15:http:{}:panic:{loc}", r.name), &format!("a {kind} body made a server task panic: {panics:?}"), rp.clone());
+            }
+            // the server must keep serving: a valid request of ANOTHER account
+            let probe = build(m, &status_route, "valid", &m.b).await.unwrap();
+            match http::raw(&client, &server.url, &probe, WAIT).await {
+                Ok(resp) if resp.status == 200 => rep.count("liveness_probes_ok", 1),
+                Ok(resp) => {
+                    rep.violation(&format!("C15:http:{}:server_died", r.name), &format!("after a {kind} body a valid sync_status request of another account was answered {}", resp.status), rp.clone());
+                }
+                Err(RawErr::Timeout) => rep.inconclusive("liveness probe not answered within the bounded wait"),
+                Err(RawErr::NoResponse(e)) => {
+                    rep.violation(&format!("C15:http:{}:server_died", r.name), &format!("after a {kind} body a valid sync_status request got no response: {e}"), rp.clone());
+                    dead = true;
+                }
+            }
+            if server.died() {
+                rep.violation(&format!("C15:http:{}:server_died", r.name), &format!("the server task ended after a {kind} body"), rp);
+                dead = true;
+            }
+            if dead {
+                break 'outer;
+            }
+        }
+    }
+    let _ = panics0;
+    rep.max("http_body_routes", body_routes.len() as u64);
+    if !dead {
+        server.shutdown().await;
+    }
+    for d in stage.devices {
+        d.close().await;
+    }
+    let _ = std::fs::remove_dir_all(&base);
 }
